@@ -284,6 +284,8 @@ def fill_template(draw, tmpl, depth=1):
     same = draw(st.integers(0, 3)) != 0  # v and w are usually different variables
     v = draw(var3)
     w = draw(var3.filter(lambda c: c != v)) if same else draw(var3)
+    if draw(st.integers(0, 11)) == 0:
+        w = v.upper()  # a DIFFERENT variable that only differs in case
     u = draw(var3)
     vals = {"v": v, "w": w, "u": u}
     for key in "abcd":
@@ -358,8 +360,10 @@ def sweep_texts(groups=None):
     for g in groups or list(TEMPLATES):
         for tmpl in TEMPLATES[g]:
             for a, b in COINCIDENCES:
-                for same_var, (m, n) in ((False, ("2", "2")), (True, ("2", "3")), (False, ("0", "1"))):
-                    vals = {"a": a, "b": b, "c": "3", "d": "5", "v": "x", "w": "x" if same_var else "y", "u": "z", "m": m, "n": n, "E": "y", "F": "(z + 1)", "G": "z"}
+                for same_var, (m, n) in ((False, ("2", "2")), (True, ("2", "3")), (False, ("0", "1")), ("case", ("2", "2"))):
+                    if same_var == "case" and (a, b) not in COINCIDENCES[:3]:
+                        continue  # v and w differ only in case (x, X): a few coefficient pairs are enough
+                    vals = {"a": a, "b": b, "c": "3", "d": "5", "v": "x", "w": "X" if same_var == "case" else ("x" if same_var else "y"), "u": "z", "m": m, "n": n, "E": "y", "F": "(z + 1)", "G": "z"}
                     t = tmpl.format(**vals)
                     out.append(t)
                     if "=" not in t and (m, n) == ("2", "2"):
